@@ -345,6 +345,17 @@ func c13inputUnits(tier string) []mc.Unit {
 		if p != "" || !c13equal(got, list) {
 			r.Failf("write-read", "Write/Read via file", nil, c13show(list), c13show(got)+p)
 		}
+		// writing a shorter list over a longer one at the same path
+		short := []fasta.Fasta{{Name: "only", Sequence: "ACGT"}}
+		p = catch(func() {
+			fasta.Write(list, path)
+			fasta.Write(short, path)
+			got = fasta.Read(path)
+		})
+		if p != "" || !c13equal(got, short) {
+			r.Failf("write-read", "Write of a long list, then Write of a short list to the same path, then Read", nil, c13show(short), c13show(got)+p)
+		}
+		fasta.Write(list, path)
 		b, _ := os.ReadFile(path)
 		gzp := filepath.Join(dir, "t.fasta.gz")
 		os.WriteFile(gzp, c13gz(b), 0o644)
@@ -448,6 +459,44 @@ func c13schedUnits(tier string) []mc.Unit {
 			}})
 		}
 	}
+	// a record of more than 128 KiB ahead of short ones: same records, same order, through Parse and through
+	// the stream under every interleaving
+	us = append(us, mc.Unit{Name: "schedules/big-record-first", Serial: true, Weight: 200, Run: func(r *mc.Recorder) {
+		list := []fasta.Fasta{{Name: "big", Sequence: strings.Repeat("ACGTTGCAGTCA", 12000)}, {Name: "s1", Sequence: "ACGT"}, {Name: "s2", Sequence: "GG"}, {Name: "big2", Sequence: strings.Repeat("TTGACGTCAATC", 11500)}, {Name: "s3", Sequence: "A"}}
+		for _, l := range []c13layout{{useBuild: true}, {wrap: 60}} {
+			text := c13write(list, l)
+			got, p := c13parse(text, l, nil)
+			if p != "" || !c13equal(got, list) {
+				r.Failf("write-read", "records of 144 000 and 138 000 letters among short ones, layout "+l.String(), nil, c13show(list), c13show(got)+p)
+			}
+			for _, capa := range []int{0, 1, 1000} {
+				st := mc.Explore(mc.Options{DevBound: 0, PreemptBound: -1, Prune: true, Deadline: r.TimeUp}, func(c *mc.Ctx) bool {
+					var got []fasta.Fasta
+					out := sched.Run(c, sched.Options{Horizon: 5000}, func() {
+						ch := make(chan fasta.Fasta, capa)
+						sched.Go(func() { fasta.ParseConcurrent(bytes.NewReader(text), ch) })
+						for {
+							f, ok := sched.Recv2(ch)
+							if !ok {
+								break
+							}
+							got = append(got, f)
+						}
+					})
+					if out.Cut {
+						return true
+					}
+					if out.String() != "ok" || !c13equal(got, list) {
+						r.Fail(mc.Failure{Clause: "stream-records", Case: fmt.Sprintf("big records first, cap=%d layout %s schedule=%v", capa, l, c.Choices()), Choices: c.Choices(), Expected: c13show(list), Got: out.String() + " " + c13show(got)})
+						return false
+					}
+					return true
+				})
+				r.AddExplore(st, "big-record-first")
+			}
+		}
+		r.Bound("big-record", "records of 144 000 and 138 000 letters among short ones: Parse, and every interleaving of the stream for capacities 0, 1, 1000")
+	}})
 	// Parse itself (spawn + range over its internal channel) under the scheduler
 	us = append(us, mc.Unit{Name: "schedules/parse", Serial: true, Weight: 30, Run: func(r *mc.Recorder) {
 		for n := 1; n <= 3; n++ {
